@@ -37,6 +37,21 @@ def infer_redirection(url, recursive=True):
         string: Redirected url or the original url if nothing was found.
     """
 
+    # NOTE: following the chain in a loop, not recursively, since the number
+    # of nested redirections is only bounded by the length of the url
+    while True:
+        target = infer_redirection_step(url)
+
+        if target is None:
+            return url
+
+        if not recursive:
+            return target
+
+        url = target
+
+
+def infer_redirection_step(url):
     redirection_split = REDIRECTION_DOMAINS_RE.split(url, 1)
 
     target = None
@@ -53,7 +68,7 @@ def infer_redirection(url, recursive=True):
             # NOTE: the pattern is case-insensitive, so must be this test
             if obvious_redirect_match.group(1).lower() == "q":
                 if "/url?q=" not in url and "/redirect" not in url:
-                    return url
+                    return None
 
             potential_target = unquote(obvious_redirect_match.group(2))
 
@@ -81,9 +96,6 @@ def infer_redirection(url, recursive=True):
     # Anything else (e.g. a relative target joined back onto a url carrying the
     # parameter in its host) would be followed forever
     if target is None or len(target) >= len(url):
-        return url
-
-    if recursive:
-        return infer_redirection(target, recursive=True)
+        return None
 
     return target
